@@ -114,7 +114,8 @@ pub fn schedule(max_len: usize) -> BoxedStrategy<Schedule> {
         3 => Just(Policy::Walk { stay: 223, target: None, stay_target: 223 }),
         2 => Just(Policy::Walk { stay: 247, target: None, stay_target: 247 }),
         4 => (0u8..28u8).prop_map(|t| Policy::Walk { stay: 247, target: Some(t), stay_target: 100 }),
-        6 => (any::<[u8; MAX_THREADS]>(), vec(0u32..600u32, 1..=4)).prop_map(|(prio, change)| Policy::Pct { prio, change }),
+        2 => Just(Policy::Walk { stay: 239, target: Some(crate::rt::TARGET_PAYLOAD), stay_target: 40 }),
+        6 => (any::<[u8; MAX_THREADS]>(), vec(0u32..600u32, 1..=4)).prop_map(|(prio, change)| Policy::Pct { prio: prio.to_vec(), change }),
     ];
     (policy, vec(any::<u8>(), 0..max_len))
         .prop_map(|(policy, bytes)| Schedule { policy, bytes })
@@ -510,5 +511,522 @@ pub fn build_traffic(plan: &TrafficPlan, opts: &ExecOpts) -> Scenario {
 pub fn traffic(q: BoxedStrategy<QCfg>, p: TrafficParams, sched_len: usize, opts: ExecOpts) -> BoxedStrategy<Scenario> {
     traffic_plan(q, p, sched_len)
         .prop_map(move |plan| build_traffic(&plan, &opts))
+        .boxed()
+}
+
+
+// ---- add_stream scenarios (C10) ------------------------------------------------------------
+
+#[derive(Clone, Debug)]
+pub struct AddStreamPlan {
+    pub q: QCfg,
+    pub prefill: u8,
+    pub producers: Vec<u8>,
+    pub parent_handles: u8,
+    pub pre_recv: u8,
+    pub adder_single: bool,
+    pub sibling_pre: Vec<u8>,
+    pub other_stream: bool,
+    pub hows: Vec<DrainHow>,
+    pub second_add: bool,
+    pub sched: Schedule,
+}
+
+fn drain_how() -> BoxedStrategy<DrainHow> {
+    prop_oneof![
+        3 => Just(DrainHow::Try),
+        3 => Just(DrainHow::Blocking),
+        1 => Just(DrainHow::View),
+        2 => Just(DrainHow::Poll),
+        1 => Just(DrainHow::Iter),
+    ]
+    .boxed()
+}
+
+pub fn addstream_plan() -> BoxedStrategy<AddStreamPlan> {
+    let q = qcfg(BCAST, FutMode::Mixed, prop_oneof![4 => Just(1u8), 4 => Just(2u8), 2 => Just(4u8), 1 => Just(3u8)].boxed(), wait_any());
+    (
+        q,
+        0u8..=4,
+        vec(1u8..=7, 1..=2),
+        // a multi-handle parent with receiving siblings is the territory of known finding D8: capped
+        prop_oneof![6 => Just(1u8), 1 => Just(2u8), 1 => Just(3u8)],
+        0u8..4,
+        any::<bool>(),
+        vec(0u8..3, 2),
+        prop_oneof![3 => Just(false), 1 => Just(true)],
+        vec(drain_how(), 5),
+        prop_oneof![3 => Just(false), 1 => Just(true)],
+        schedule(500),
+    )
+        .prop_map(|(q, prefill, producers, parent_handles, pre_recv, adder_single, sibling_pre, other_stream, hows, second_add, sched)| AddStreamPlan {
+            q,
+            prefill: prefill.min(q.n() as u8),
+            producers,
+            parent_handles,
+            pre_recv,
+            adder_single,
+            sibling_pre,
+            other_stream,
+            hows,
+            second_add,
+            sched,
+        })
+        .boxed()
+}
+
+/// program 0 controller; witness = initial stream (stream 0), drained by its own thread;
+/// parent = stream 1; the adder thread calls add_stream on the parent, hands the new stream to a
+/// child thread that drains it, and drains the parent itself.
+pub fn build_addstream(pl: &AddStreamPlan, opts: &ExecOpts) -> Scenario {
+    let q = pl.q;
+    let mut main = Vec::new();
+    for _ in 0..pl.prefill {
+        main.push(Op::TrySend { tx: 0 });
+    }
+    // table: [W]
+    main.push(Op::AddStream { rx: 0 }); // [W, P]
+    let mut table: Vec<&str> = vec!["W", "P"];
+    for _ in 1..pl.parent_handles {
+        main.push(Op::CloneRx { rx: sel(1, table.len()) });
+        table.push("P");
+    }
+    if pl.other_stream {
+        main.push(Op::AddStream { rx: 0 });
+        table.push("O");
+    }
+    for _ in 1..pl.producers.len() {
+        main.push(Op::CloneTx { tx: 0 });
+    }
+    let mut progs: Vec<Prog> = vec![Prog { ops: vec![], ret: false }];
+    for k in &pl.producers {
+        let p = progs.len() as u8;
+        main.push(Op::Spawn { prog: p, tx: vec![0], rx: vec![] });
+        progs.push(Prog { ops: (0..*k).map(|_| Op::Send { tx: 0, max: 0 }).collect(), ret: false });
+    }
+    let take = |table: &mut Vec<&str>, what: &str| -> u16 {
+        let idx = table.iter().position(|x| *x == what).unwrap();
+        let s = sel(idx, table.len());
+        table.remove(idx);
+        s
+    };
+    // witness
+    {
+        let p = progs.len() as u8;
+        let s = take(&mut table, "W");
+        main.push(Op::Spawn { prog: p, tx: vec![], rx: vec![s] });
+        progs.push(Prog { ops: vec![Op::Drain { rx: 0, how: pl.hows[0], extra: 0 }], ret: false });
+    }
+    // adder + child
+    {
+        let p = progs.len() as u8;
+        let child = p + 1;
+        let s = take(&mut table, "P");
+        main.push(Op::Spawn { prog: p, tx: vec![], rx: vec![s] });
+        let mut ops = Vec::new();
+        if pl.adder_single && pl.parent_handles == 1 {
+            ops.push(Op::IntoSingle { rx: 0 });
+        }
+        for _ in 0..pl.pre_recv {
+            ops.push(Op::TryRecv { rx: 0 });
+        }
+        ops.push(Op::AddStream { rx: 0 }); // adder table: [P, S]
+        if pl.second_add {
+            // a stream created from the new stream before anything was taken from it
+            ops.push(Op::AddStream { rx: sel(1, 2) }); // [P, S, S2]
+            ops.push(Op::Spawn { prog: child, tx: vec![], rx: vec![sel(1, 3), sel(1, 2)] });
+        } else {
+            ops.push(Op::Spawn { prog: child, tx: vec![], rx: vec![sel(1, 2)] });
+        }
+        ops.push(Op::Drain { rx: 0, how: pl.hows[1], extra: 0 });
+        ops.push(Op::JoinAll);
+        progs.push(Prog { ops, ret: false });
+        // the child drains the new stream(s) with non-blocking receives alternately, so that
+        // neither of its streams holds the producers back while it waits on the other
+        let mut cops = vec![];
+        if pl.second_add {
+            cops.push(Op::Spawn { prog: child + 1, tx: vec![], rx: vec![sel(1, 2)] });
+        }
+        cops.push(Op::Drain { rx: 0, how: pl.hows[2], extra: 0 });
+        if pl.second_add {
+            cops.push(Op::JoinAll);
+        }
+        progs.push(Prog { ops: cops, ret: false });
+        if pl.second_add {
+            progs.push(Prog { ops: vec![Op::Drain { rx: 0, how: pl.hows[4], extra: 0 }], ret: false });
+        }
+    }
+    // siblings on the parent
+    for k in 1..pl.parent_handles {
+        let p = progs.len() as u8;
+        let s = take(&mut table, "P");
+        main.push(Op::Spawn { prog: p, tx: vec![], rx: vec![s] });
+        let mut ops = Vec::new();
+        for _ in 0..pl.sibling_pre[(k as usize - 1) % 2] {
+            ops.push(Op::TryRecv { rx: 0 });
+        }
+        ops.push(Op::Drain { rx: 0, how: pl.hows[3], extra: 0 });
+        progs.push(Prog { ops, ret: false });
+    }
+    if pl.other_stream {
+        let p = progs.len() as u8;
+        let s = take(&mut table, "O");
+        main.push(Op::Spawn { prog: p, tx: vec![], rx: vec![s] });
+        progs.push(Prog { ops: vec![Op::Drain { rx: 0, how: pl.hows[4], extra: 0 }], ret: false });
+    }
+    main.push(Op::JoinAll);
+    progs[0].ops = main;
+    Scenario { q, progs, sched: pl.sched.clone(), opts: opts.clone() }
+}
+
+// ---- stream removal scenarios (C11) --------------------------------------------------------
+
+pub fn removal_scenario(opts: ExecOpts) -> BoxedStrategy<Scenario> {
+    let q = qcfg(BOTH, FutMode::Mixed, prop_oneof![4 => Just(1u8), 4 => Just(2u8), 2 => Just(4u8)].boxed(), wait_any());
+    (
+        q,
+        1u8..=3,                       // handles of the slow stream
+        1usize..=2,                    // remover threads
+        vec(any::<bool>(), 3),         // unsubscribe or drop
+        vec(0u8..3, 3),                // ops of a remover before it removes
+        vec(2u8..=7, 1..=2),           // producers: number of sends
+        any::<bool>(),                 // third stream
+        any::<bool>(),                 // sink tasks
+        vec(drain_how(), 2),
+        schedule(500),
+    )
+        .prop_map(move |(q, slow_handles, removers, unsub, pre, producers, third, sink, hows, sched)| {
+            let bcast = q.flavour == Flavour::Broadcast;
+            let mut main = Vec::new();
+            let mut table: Vec<&str> = vec!["A"];
+            // slow stream (broadcast) or extra handles of the only stream (mpmc)
+            if bcast {
+                main.push(Op::AddStream { rx: 0 });
+            } else {
+                main.push(Op::CloneRx { rx: 0 });
+            }
+            table.push("S");
+            for _ in 1..slow_handles {
+                main.push(Op::CloneRx { rx: sel(1, table.len()) });
+                table.push("S");
+            }
+            if third && bcast {
+                main.push(Op::AddStream { rx: 0 });
+                table.push("T");
+            }
+            for _ in 1..producers.len() {
+                main.push(Op::CloneTx { tx: 0 });
+            }
+            let mut progs: Vec<Prog> = vec![Prog { ops: vec![], ret: false }];
+            for k in &producers {
+                let p = progs.len() as u8;
+                main.push(Op::Spawn { prog: p, tx: vec![0], rx: vec![] });
+                progs.push(Prog {
+                    ops: (0..*k)
+                        .map(|_| if sink && q.futures { Op::SinkSend { tx: 0 } } else { Op::Send { tx: 0, max: 0 } })
+                        .collect(),
+                    ret: false,
+                });
+            }
+            let mut take = |table: &mut Vec<&str>, what: &str| -> u16 {
+                let idx = table.iter().position(|x| *x == what).unwrap();
+                let s = sel(idx, table.len());
+                table.remove(idx);
+                s
+            };
+            {
+                let p = progs.len() as u8;
+                let s = take(&mut table, "A");
+                main.push(Op::Spawn { prog: p, tx: vec![], rx: vec![s] });
+                progs.push(Prog { ops: vec![Op::Drain { rx: 0, how: hows[0], extra: 0 }], ret: false });
+            }
+            // removers share the slow handles
+            let nrem = removers.min(slow_handles as usize);
+            let mut left = slow_handles as usize;
+            for r in 0..nrem {
+                let takeh = if r + 1 == nrem { left } else { 1 };
+                left -= takeh;
+                let p = progs.len() as u8;
+                let mut rxs = Vec::new();
+                for _ in 0..takeh {
+                    rxs.push(take(&mut table, "S"));
+                }
+                main.push(Op::Spawn { prog: p, tx: vec![], rx: rxs });
+                let mut ops = Vec::new();
+                for _ in 0..pre[r % 3] {
+                    ops.push(Op::TryRecv { rx: 0 });
+                }
+                for k in 0..takeh {
+                    if unsub[(r + k) % 3] {
+                        ops.push(Op::UnsubRx { rx: 0 });
+                    } else {
+                        ops.push(Op::DropRx { rx: 0 });
+                    }
+                }
+                progs.push(Prog { ops, ret: false });
+            }
+            if third && bcast {
+                let p = progs.len() as u8;
+                let s = take(&mut table, "T");
+                main.push(Op::Spawn { prog: p, tx: vec![], rx: vec![s] });
+                progs.push(Prog { ops: vec![Op::Drain { rx: 0, how: hows[1], extra: 0 }], ret: false });
+            }
+            main.push(Op::JoinAll);
+            progs[0].ops = main;
+            Scenario { q, progs, sched, opts: opts.clone() }
+        })
+        .boxed()
+}
+
+// ---- quiescence scenarios (C06) ------------------------------------------------------------
+
+pub fn quiescence_scenario(opts: ExecOpts) -> BoxedStrategy<Scenario> {
+    let q = qcfg(BOTH, FutMode::Mixed, cap_small(), wait_any());
+    let pop = wunion(vec![
+        (6, Just(Op::TrySend { tx: 0 }).boxed()),
+        (3, (1u8..3).prop_map(|k| Op::Send { tx: 0, max: k }).boxed()),
+        (2, Just(Op::StartSend { tx: 0, by_ref: true }).boxed()),
+        (1, Just(Op::WithCloneTx { tx: 0, sends: 1 }).boxed()),
+        (1, Just(Op::Yield).boxed()),
+    ]);
+    let cop = wunion(vec![
+        (6, Just(Op::TryRecv { rx: 0 }).boxed()),
+        (3, Just(Op::TryView { rx: 0 }).boxed()),
+        (2, Just(Op::Poll { rx: 0, by_ref: true }).boxed()),
+        (1, (0u8..3).prop_map(|k| Op::TryIter { rx: 0, max: k, variant: k }).boxed()),
+        (1, any::<bool>().prop_map(|u| Op::WithCloneRx { rx: 0, unsub: u }).boxed()),
+        (1, Just(Op::IntoSingle { rx: 0 }).boxed()),
+        (1, Just(Op::IntoMulti { rx: 0 }).boxed()),
+        (1, Just(Op::Yield).boxed()),
+    ]);
+    (
+        q,
+        0u8..=4,
+        vec(vec(pop, 1..8), 1..=3),
+        vec(vec((vec(cop, 0..7), prop_oneof![5 => Just(true), 1 => Just(false)]), 1..=2), 1..=3),
+        schedule(400),
+    )
+        .prop_map(move |(q, prefill, producers, mut streams, sched)| {
+            if q.flavour == Flavour::Mpmc {
+                streams.truncate(1);
+            }
+            let mut main = Vec::new();
+            for _ in 0..prefill.min(q.n() as u8) {
+                main.push(Op::TrySend { tx: 0 });
+            }
+            let mut rx_table: Vec<usize> = vec![0];
+            for s in 1..streams.len() {
+                main.push(Op::AddStream { rx: sel(0, rx_table.len()) });
+                rx_table.push(s);
+            }
+            for (s, cons) in streams.iter().enumerate() {
+                for _ in 1..cons.len() {
+                    let idx = rx_table.iter().position(|x| *x == s).unwrap();
+                    main.push(Op::CloneRx { rx: sel(idx, rx_table.len()) });
+                    rx_table.push(s);
+                }
+            }
+            for _ in 1..producers.len() {
+                main.push(Op::CloneTx { tx: 0 });
+            }
+            let mut progs: Vec<Prog> = vec![Prog { ops: vec![], ret: false }];
+            for ops in &producers {
+                let p = progs.len() as u8;
+                main.push(Op::Spawn { prog: p, tx: vec![0], rx: vec![] });
+                progs.push(Prog { ops: ops.clone(), ret: true });
+            }
+            for (s, cons) in streams.iter().enumerate() {
+                for (ops, ret) in cons {
+                    let p = progs.len() as u8;
+                    let idx = rx_table.iter().position(|x| *x == s).unwrap();
+                    main.push(Op::Spawn { prog: p, tx: vec![], rx: vec![sel(idx, rx_table.len())] });
+                    rx_table.remove(idx);
+                    progs.push(Prog { ops: ops.clone(), ret: *ret });
+                }
+            }
+            main.push(Op::JoinAll);
+            main.push(Op::ProbeQuiescent);
+            progs[0].ops = main;
+            Scenario { q, progs, sched, opts: opts.clone() }
+        })
+        .boxed()
+}
+
+// ---- solo-run probes (C18) -----------------------------------------------------------------
+
+pub fn probe_scenario(opts: ExecOpts) -> BoxedStrategy<Scenario> {
+    let q = qcfg(BOTH, FutMode::Never, cap_small(), wait_no_notify());
+    let params = TrafficParams {
+        max_values: 6,
+        w_clone_rx: 1,
+        w_clone_tx: 1,
+        w_convert: 1,
+        ..TrafficParams::default()
+    };
+    (traffic_plan(q, params, 400), vec((any::<u16>(), any::<u16>(), 0u8..3), 1..6))
+        .prop_map(move |(plan, probes)| {
+            let mut sc = build_traffic(&plan, &opts);
+            let np = plan.producers.len();
+            for (psel, pos, kind) in probes {
+                // programs 1..=np are producers, the rest consumers
+                let nprog = sc.progs.len() - 1;
+                let p = 1 + ((psel as usize * nprog) >> 16);
+                let is_producer = p <= np;
+                let op = match (is_producer, kind) {
+                    (true, _) => Op::ProbeTrySend { tx: 0 },
+                    (false, 0) => Op::ProbeTryView { rx: 0 },
+                    (false, _) => Op::ProbeTryRecv { rx: 0 },
+                };
+                let len = sc.progs[p].ops.len();
+                let at = (pos as usize * (len + 1)) >> 16;
+                sc.progs[p].ops.insert(at, op);
+            }
+            sc
+        })
+        .boxed()
+}
+
+// ---- churn scenarios (C16) -----------------------------------------------------------------
+
+pub fn churn_scenario(opts: ExecOpts, rounds_max: usize) -> BoxedStrategy<Scenario> {
+    let q = qcfg(BOTH, FutMode::Mixed, prop_oneof![Just(1u8), Just(2u8)].boxed(), wait_no_notify());
+    let round = wunion(vec![
+        // add a stream and drop it again (retires the list twice, a position, a token)
+        (5, any::<bool>().prop_map(|u| vec![Op::AddStream { rx: 0 }, if u { Op::UnsubRx { rx: 65535 } } else { Op::DropRx { rx: 65535 } }]).boxed()),
+        (4, any::<bool>().prop_map(|u| vec![Op::WithCloneRx { rx: 0, unsub: u }]).boxed()),
+        (3, Just(vec![Op::WithCloneTx { tx: 0, sends: 0 }]).boxed()),
+        (2, Just(vec![Op::IntoSingle { rx: 0 }, Op::IntoMulti { rx: 0 }]).boxed()),
+        (2, Just(vec![Op::TryRecv { rx: 0 }]).boxed()),
+        (1, Just(vec![Op::TrySend { tx: 0 }]).boxed()),
+        (1, Just(vec![Op::Yield]).boxed()),
+    ]);
+    (
+        q,
+        vec(2u8..=20, 1..=2),                                  // writers: number of sends each
+        vec(vec(round, 4..rounds_max), 1..=3),                 // churn threads
+        prop_oneof![4 => Just(0usize), 1 => Just(1usize), 1 => Just(2usize)], // idle handles
+        schedule(600),
+    )
+        .prop_map(move |(q, writers, churners, idle, sched)| {
+            let mut main = Vec::new();
+            // every churner gets a handle of its own stream (broadcast) or a clone (mpmc) plus a
+            // sender; the controller keeps only the idle handles
+            let nrx = churners.len() + idle;
+            for _ in 1..nrx {
+                if q.flavour == Flavour::Broadcast {
+                    main.push(Op::AddStream { rx: 0 });
+                } else {
+                    main.push(Op::CloneRx { rx: 0 });
+                }
+            }
+            let ntx = writers.len() + churners.len() + idle;
+            for _ in 1..ntx {
+                main.push(Op::CloneTx { tx: 0 });
+            }
+            let mut progs: Vec<Prog> = vec![Prog { ops: vec![], ret: false }];
+            for k in &writers {
+                let p = progs.len() as u8;
+                main.push(Op::Spawn { prog: p, tx: vec![0], rx: vec![] });
+                progs.push(Prog { ops: (0..*k).map(|_| Op::Send { tx: 0, max: 3 }).collect(), ret: false });
+            }
+            for rounds in &churners {
+                let p = progs.len() as u8;
+                main.push(Op::Spawn { prog: p, tx: vec![0], rx: vec![0] });
+                // after every round the thread operates on both of its long-lived handles, so that
+                // their reclamation tokens keep up with the epoch ("keeps operating")
+                let mut ops: Vec<Op> = Vec::new();
+                for r in rounds {
+                    ops.extend(r.iter().cloned());
+                    ops.push(Op::TrySend { tx: 0 });
+                    ops.push(Op::TryRecv { rx: 0 });
+                }
+                progs.push(Prog { ops, ret: false });
+            }
+            // the controller keeps the initial receiver and the idle handles and never operates on
+            // them while the others run: idle handles may only ever delay reclamation
+            main.push(Op::JoinAll);
+            progs[0].ops = main;
+            Scenario { q, progs, sched, opts: opts.clone() }
+        })
+        .boxed()
+}
+
+
+// ---- memory churn scenarios (C17) ----------------------------------------------------------
+
+pub fn mem_churn_scenario(opts: ExecOpts, cycle_choices: &'static [u32]) -> BoxedStrategy<Scenario> {
+    let q = qcfg(BOTH, FutMode::Mixed, cap_any(), wait_any());
+    let round = wunion(vec![
+        (5, any::<bool>().prop_map(|u| vec![Op::AddStream { rx: 0 }, if u { Op::UnsubRx { rx: 65535 } } else { Op::DropRx { rx: 65535 } }]).boxed()),
+        (4, any::<bool>().prop_map(|u| vec![Op::WithCloneRx { rx: 0, unsub: u }]).boxed()),
+        (3, (0u8..2).prop_map(|k| vec![Op::WithCloneTx { tx: 0, sends: k }]).boxed()),
+        (2, Just(vec![Op::IntoSingle { rx: 0 }, Op::IntoMulti { rx: 0 }]).boxed()),
+        (1, Just(vec![Op::IntoSingle { rx: 0 }, Op::Transform { rx: 0 }, Op::IntoMulti { rx: 0 }]).boxed()),
+    ]);
+    (
+        q,
+        0..cycle_choices.len(),
+        vec(round, 1..4),
+        any::<bool>(),     // an earlier drop of a non-last handle of the long-lived stream
+        any::<bool>(),     // a second long-lived stream
+        any::<bool>(),     // concurrent traffic thread
+        0u8..3,            // values left in the queue
+        schedule(200),
+    )
+        .prop_map(move |(q, ci, rounds, early_drop, second, traffic, leftover, sched)| {
+            let c = cycle_choices[ci];
+            let bcast = q.flavour == Flavour::Broadcast;
+            let mut main = Vec::new();
+            if early_drop {
+                main.push(Op::WithCloneRx { rx: 0, unsub: false });
+            }
+            if second && bcast {
+                main.push(Op::AddStream { rx: 0 });
+            }
+            let mut progs: Vec<Prog> = vec![Prog { ops: vec![], ret: false }];
+            // the concurrent variant is kept short: it doubles the work per cycle
+            let traffic = traffic && c <= 1000;
+            if traffic {
+                main.push(Op::CloneTx { tx: 0 });
+                main.push(Op::CloneRx { rx: 0 });
+                main.push(Op::Spawn { prog: 1, tx: vec![65535], rx: vec![65535] });
+                progs.push(Prog {
+                    ops: vec![Op::Repeat {
+                        times: c * 4,
+                        // the yield makes the two threads alternate: a thread that is descheduled
+                        // for a long time does not "keep operating" and may legitimately delay frees
+                        body: vec![Op::TrySend { tx: 0 }, Op::TryRecv { rx: 0 }, Op::Yield],
+                        sample_after: vec![],
+                    }],
+                    ret: false,
+                });
+            }
+            let mut body: Vec<Op> = rounds.iter().flatten().cloned().collect();
+            // the long-lived handles operate every cycle
+            body.push(Op::TrySend { tx: 0 });
+            body.push(Op::TryRecv { rx: 0 });
+            if second && bcast {
+                body.push(Op::TryRecv { rx: 65535 });
+            }
+            if traffic {
+                body.push(Op::Yield);
+            }
+            main.push(Op::Repeat { times: 4 * c, body, sample_after: vec![c, 2 * c, 4 * c] });
+            for _ in 0..leftover {
+                main.push(Op::TrySend { tx: 0 });
+            }
+            main.push(Op::JoinAll);
+            progs[0].ops = main;
+            let mut o = opts.clone();
+            o.max_steps = 2_000_000_000;
+            o.no_log = true;
+            // priority schedules starve the low-priority thread inside retry loops for the whole
+            // run, which makes the run inconclusive: use random-walk schedules here
+            let sched = match sched.policy {
+                Policy::Pct { .. } => Schedule { policy: Policy::Walk { stay: 223, target: None, stay_target: 223 }, bytes: sched.bytes },
+                _ => sched,
+            };
+            Scenario { q, progs, sched, opts: o }
+        })
         .boxed()
 }
